@@ -179,6 +179,12 @@ fn get_type_layout(module: &Module, ty: TypeId, mode: PackingMode) -> Option<Lay
                 layout.align = layout.align.max(member_layout.align);
             }
             layout.size = layout.size.checked_next_multiple_of(layout.align)?;
+
+            // Metal is C++ where an object of an empty struct still takes a byte
+            if def.members.is_empty() && matches!(mode, PackingMode::Metal) {
+                layout.size = 1;
+            }
+
             Some(layout)
         }
         TypeLayer::StructTemplate(_) => panic!("unexpected struct template"),
